@@ -238,7 +238,13 @@ def run_bn_history(case, drv):
                     n_ok += 1
             elif k == "removeNode":
                 mop = {"k": "removeNode", "v": op["v"]}
-                bn.remove_node(pn[op["v"]])
+                form = (step_i + op["v"]) % 5
+                if form == 0:
+                    bn.remove_node(pn[op["v"]])
+                else:
+                    # the batch form, with the nodes given as list / tuple / generator / one-shot iterator
+                    one = [pn[op["v"]]]
+                    bn.remove_nodes_from([one, tuple(one), (x for x in one), iter(one)][form - 1])
             elif k == "addCpd":
                 v, ps = op["child"], op["parents"]
                 f = {"scope": [v] + ps, "card": [card[x] for x in [v] + ps], "vals": [x for row in op["table"] for x in row]}
@@ -252,7 +258,8 @@ def run_bn_history(case, drv):
                 bn.remove_cpds(pn[op["v"]])
             elif k == "do":
                 mop = {"k": "do", "vs": op["vs"]}
-                bn.do([pn[v] for v in op["vs"]], inplace=True)
+                dl = [pn[v] for v in op["vs"]]
+                bn.do([dl, tuple(dl), (x for x in dl), iter(dl)][(step_i + len(dl)) % 4], inplace=True)
             elif k == "copy":
                 cp = bn.copy()
                 worlds.append((cp, {kk: [dict(x) if isinstance(x, dict) else x for x in vv] for kk, vv in st.items()}))
